@@ -30,9 +30,55 @@ fn spec(tier: Tier) -> (CfgSpec, OpSpec) {
     )
 }
 
+/// Many well-formed, empty packets whose sequence numbers are pairwise non-adjacent (ascending, descending or rotated):
+/// nothing in their content is hostile, only the pattern of sequences the receiver has to remember and acknowledge.
+fn sequence_pattern_burst(w: &mut World, ctx: &mut Ctx, d: Dir) -> Outcome {
+    let unrel: Vec<u8> = w.dirs[d.idx()].chans.values().filter(|c| c.cfg.kind == Kind::Unreliable).map(|c| c.cfg.id).collect();
+    let n = 60 + ctx.src.below(120);
+    let base = ctx.src.pick(&[1_000_000u64, 0, 70_000, (1 << 31), (1 << 40)]);
+    let step = ctx.src.pick(&[2u64, 3, 1 << 14, 1 << 31]);
+    let mut seqs: Vec<u64> = (0..n as u64).map(|i| base + i * step).collect();
+    match ctx.src.below(3) {
+        0 => {}
+        1 => seqs.reverse(),
+        _ => {
+            let r = ctx.src.below(n);
+            seqs.reverse();
+            seqs.rotate_left(r);
+        }
+    }
+    ctx.op(&("sequence_pattern_burst", d.client, d.to_client, n, base, step));
+    ctx.label("inject_sequence_burst");
+    w.hostile_seen[d.client] = true;
+    for s in seqs {
+        let mut raw = RawW::new();
+        match unrel.first() {
+            Some(ch) => {
+                raw.u8(1).varint(s).u8(*ch).u16(0);
+            }
+            None => {
+                // an ack packet acknowledging nothing the receiver ever sent
+                raw.u8(4).varint(s).varint(1 << 50).varint(0).varint(0);
+            }
+        }
+        let pid = w.packets.len();
+        w.packets.push(PktRec { dir: d, bytes: raw.buf, seq: u64::MAX, info: PInfo::Undecodable, sent_at_ms: w.now_ms, flush_no: u64::MAX, handed: 0, last_handed_ms: 0, hostile: true });
+        w.handover(pid)?;
+    }
+    // the endpoint must still be able to produce its packets (ack list included)
+    let pids = w.flush(d.rev())?;
+    for pid in pids {
+        w.enqueue(pid, 0);
+    }
+    Ok(())
+}
+
 pub fn inject(w: &mut World, ctx: &mut Ctx, victim: usize) -> Outcome {
     let to_client = ctx.src.chance(110);
     let d = Dir { client: victim, to_client };
+    if ctx.src.chance(20) && w.receiver(d).map(|r| !r.is_disconnected()).unwrap_or(false) {
+        return sequence_pattern_burst(w, ctx, d);
+    }
     let (bytes, what) = gen_hostile(&mut ctx.src, w, d);
     ctx.op(&what);
     // state of the targeted channel before the injection (non-triviality)
@@ -112,7 +158,7 @@ impl Property for C06 {
         "exploration"
     }
     fn rule(&self) -> String {
-        "A case = live renet server with a victim and a bystander connection (and their clients) running generated honest traffic under faults, interleaved with injections into either endpoint of the victim connection. Injected bytes: field-targeted packets from the harness's own raw writer (every kind; sequence / message id / slice index / slice count / declared length at 0, 1, cursor+-1, count-1, count, count+1, 10^6, 10^6+1, 2^30, 2^62-1; payload 0/1/1199/1200/1201; slices aimed at a message in reassembly with a contradicting count or an index beyond it; ack packets with reversed/overlapping/huge/10^4 ranges), mutations/truncations/splices of genuine packets just captured, raw bytes. Oracles: no call unwinds (overflow checks on); a disconnected endpoint reports a reason; all later calls on the victim and on the bystander return normally; after every call 0 <= used <= max on every receive and send channel of both connections; the bystander keeps the C01/C02/C03 content oracles, is never disconnected and gets everything within the liveness bound. Non-trivial: an injection that parses and reaches a channel holding buffered or partially reassembled data. Distinct = hash of the decoded operation trace.".into()
+        "A case = live renet server with a victim and a bystander connection (and their clients) running generated honest traffic under faults, interleaved with injections into either endpoint of the victim connection. Injected bytes: field-targeted packets from the harness's own raw writer (every kind; sequence / message id / slice index / slice count / declared length at 0, 1, cursor+-1, count-1, count, count+1, 10^6, 10^6+1, 2^30, 2^62-1; payload 0/1/1199/1200/1201; slices aimed at a message in reassembly with a contradicting count or an index beyond it; ack packets with reversed/overlapping/huge/10^4 ranges), mutations/truncations/splices of genuine packets just captured, raw bytes; and bursts of 60-180 well-formed empty packets whose sequence numbers are pairwise non-adjacent (ascending / descending / rotated, steps 2 .. 2^31), after which the endpoint must still produce its packets. Oracles: no call unwinds (overflow checks on); a disconnected endpoint reports a reason; all later calls on the victim and on the bystander return normally; after every call 0 <= used <= max on every receive and send channel of both connections; the bystander keeps the C01/C02/C03 content oracles, is never disconnected and gets everything within the liveness bound. Non-trivial: an injection that parses and reaches a channel holding buffered or partially reassembled data. Distinct = hash of the decoded operation trace.".into()
     }
     fn assumptions(&self) -> Vec<String> {
         vec!["channel ids used by the application exist (the API documents a panic otherwise)".into(), "message contents on the victim connection are not judged: at this layer whoever can inject packets is the peer".into()]
@@ -121,7 +167,7 @@ impl Property for C06 {
         PbtCfg { cases: tier.pick(200_000, 6_000_000), max_len: tier.pick(2000, 6000), shrink_ms: 120_000 }
     }
     fn required_labels(&self) -> Vec<&'static str> {
-        vec!["inject_reached_state", "inject_contradicting_slice", "inject_parsed_ack", "inject_unparsed", "victim_disconnected", "healed_complete"]
+        vec!["inject_reached_state", "inject_contradicting_slice", "inject_parsed_ack", "inject_unparsed", "victim_disconnected", "healed_complete", "inject_sequence_burst"]
     }
     fn run_choices(&self, ctx: &mut Ctx) -> Outcome {
         let (cfgspec, ops) = spec(ctx.tier);
